@@ -13,7 +13,8 @@ RULE = (
     "{copy_to_frontend (target compressor x rechunk on/off x target size x {one named target frontend, every writable frontend}), stand-alone strax.rechunker (compressor x target "
     "size x parallel {False, 'thread', 'process' under the controlled scheduler: default schedule, and every schedule with <=1 delay for selected layouts} x replace x dest), rechunk_on_load (source size 1,2 rows x "
     "executor on/off), per-chunk make for every grouping of the dependency's chunks into consecutive jobs followed by "
-    "merge_per_chunk_storage (both processors)}; oracle: the result loads to exactly the rows of the source / of the directly "
+    "merge_per_chunk_storage (both processors), with partial merges of {all but the first job, all but the last, first+last} in between (>=3 jobs): "
+    "partial data has its own key and rows and is never reported as the complete data type}; oracle: the result loads to exactly the rows of the source / of the directly "
     "made data, destination metadata agrees with the destination files (chunk n, nbytes, start/end, first/last times, "
     "filenames, overall range, compressor, no exception, writing_ended), loaded chunks tile the same overall range, and the "
     "source directory is byte-identical afterwards unless replace was requested. non-trivial: >=2 stored chunks and >=1 row; "
@@ -234,6 +235,36 @@ def check_per_chunk(res, iv, bounds, groups, proc, rechunk):
                 ctxrun.run_controlled(lambda: st.make(RUN, "mp", chunk_number={"src": grp}, processor=proc, progress_bar=False))
             if st.is_stored(RUN, "mp") and len(groups) > 1:
                 res.violation("per_chunk:premature", "mp reported stored before merging the per-chunk results", case)
+            # multi-step merging: a merge of only SOME of the jobs is partial data under its own key, never the complete data type
+            # (a merge of ONE job is not a merge: that job's data already sits under the same key)
+            if len(groups) >= 3:
+                subsets = [groups[1:], groups[:-1], [groups[0], groups[-1]]]
+                rows_of = ss.assign_rows(iv, bounds)
+                subsets = [S for k, S in enumerate(subsets) if S not in subsets[:k]]
+                for S in subsets:
+                    comb = [c for gr in S for c in gr]
+                    if sorted(comb) == list(range(len(bounds) - 1)):
+                        continue
+                    consecutive = sorted(comb) == list(range(min(comb), max(comb) + 1))
+                    try:
+                        s.ctx([strax.DataDirectory(s.d1)]).merge_per_chunk_storage(RUN, "mp", "src", chunk_number_group=S, rechunk=rechunk)
+                    except ValueError:
+                        if consecutive:
+                            raise
+                        # chunk numbers must be consecutive: rejecting first+last is fine, storing it as complete data is not
+                        res.count("non_consecutive_rejected")
+                    stp = s.ctx([strax.DataDirectory(s.d1)])
+                    if stp.is_stored(RUN, "mp"):
+                        res.violation("per_chunk:partial-stored-as-complete", f"after merging only the jobs {S} of {groups}, mp is reported stored as the complete data type", case)
+                        return
+                    if not consecutive:
+                        continue
+                    want = [i for c in comb for i in rows_of[c]]
+                    got = ctxrun.run_controlled(lambda: stp.get_array(RUN, "mp", chunk_number={"src": comb}, processor=proc, progress_bar=False))
+                    if sorted(got["rid"].tolist()) != sorted(want) or not stp.is_stored(RUN, "mp", chunk_number={"src": comb}):
+                        res.violation("per_chunk:partial-rows", f"partial merge of jobs {S}: rows {got['rid'].tolist()} expected source rows {want}", case)
+                        return
+                    res.count("partial_merges")
             st.merge_per_chunk_storage(RUN, "mp", "src", chunk_number_group=groups, rechunk=rechunk)
     except Exception as e:
         res.violation("per_chunk:" + ctxrun.exc_fp(e, 3), f"{type(e).__name__}: {e}"[:300], case)
@@ -430,6 +461,8 @@ def sanity(total, tier):
             return f"{k}: rechunking never produced more than one chunk"
     if total.counters.get("per_chunk_groupings", 0) < 20:
         return "too few per-chunk groupings"
+    if total.counters.get("partial_merges", 0) < 50:
+        return "too few partial (multi-step) merges"
     if total.counters.get("copies_to_two_targets", 0) < 20:
         return "too few copies to two target frontends"
     if not any(n >= 4 for tr, n in total.sets.get("rechunker_nchunks", ())):
